@@ -10,7 +10,7 @@ from vlib.wsgi import make_environ, call_app
 ID = 'C11'
 LEVEL = 'exploration'
 RULE = ('case = a rule universe (4-9 rule ASTs with shared prefixes, wildcard siblings, filter-conflicting siblings; hook rules = the rules, their '
-        'truncations at segment and mid-literal positions, and "/") + a history of 1-25 operations: add(rule, methods, name?, overwrite?) | remove(rule) | '
+        'truncations at segment and mid-literal positions, and "/") + a history of 1-25 operations: add(rule, methods, name?, overwrite?) | remove(rule) | remove(<Route object returned by an earlier add(), possibly stale>) | '
         'remove(name=) | remove(prefix*) | add_hook(rule, SIMPLE|PARTIAL) | remove_hook(rule), generated as one shrinkable value (model-based stateful search); '
         'plus exhaustive enumeration of all operation sequences to depth 4 (5 in thorough) over a fixed 13-operation alphabet. Model: surviving routes keyed '
         'by pattern with METHOD -> (tag, registering rule), route names, hooks keyed by pattern; an operation that raises changes nothing; known-must-reject '
@@ -68,7 +68,7 @@ def case_st(draw):
     nrule = len(uni)
     ops = []
     for _ in range(draw(st.integers(1, 25))):
-        kind = draw(st.sampled_from(['add', 'add', 'add', 'add', 'remove', 'remove', 'remove_name', 'remove_prefix', 'add_hook', 'add_hook', 'remove_hook']))
+        kind = draw(st.sampled_from(['add', 'add', 'add', 'add', 'remove', 'remove', 'remove_name', 'remove_prefix', 'add_hook', 'add_hook', 'remove_hook', 'remove_obj']))
         ch = draw(st.lists(st.integers(0, 30), max_size=2))
         if kind == 'add':
             ops.append({'op': 'add', 'rule': draw(st.integers(0, nrule - 1)), 'methods': draw(st.lists(st.sampled_from(METHS), min_size=1, max_size=2, unique=True)),
@@ -76,6 +76,8 @@ def case_st(draw):
                         'mspell': draw(st.sampled_from([0, 0, 0, 1, 2, 3]))})      # the verb spelled upper / lower / capitalised / mixed (names are case-insensitive)
         elif kind == 'remove':
             ops.append({'op': 'remove', 'rule': draw(st.integers(0, nrule - 1)), 'choice': ch})
+        elif kind == 'remove_obj':
+            ops.append({'op': 'remove_obj', 'handle': draw(st.integers(0, 5))})
         elif kind == 'remove_name':
             ops.append({'op': 'remove_name', 'name': draw(st.sampled_from(NAMEPOOL))})
         elif kind == 'remove_prefix':
@@ -241,6 +243,7 @@ def run_history(ctx, case, every_step=True, wsgi=True):
     router = RadiRouter()
     tagno = 0
     accepted_adds = 0
+    handles = []
     for si, op in enumerate(case['ops']):
         what = f'step {si} {op}'
         kind = op['op']
@@ -253,7 +256,7 @@ def run_history(ctx, case, every_step=True, wsgi=True):
             try:
                 ms = op.get('mspell', 0)
                 spelled = [[m, m.lower(), m.capitalize(), m[:1].lower() + m[1:]][ms] for m in op['methods']]
-                router.add(text, spelled[0] if (ms == 3 and len(spelled) == 1) else spelled, tags.handler(tag), op['name'], overwrite=op['overwrite'])
+                handle = router.add(text, spelled[0] if (ms == 3 and len(spelled) == 1) else spelled, tags.handler(tag), op['name'], overwrite=op['overwrite'])
                 ok, exc = True, None
             except Exception as e:
                 ok, exc = False, e
@@ -272,6 +275,7 @@ def run_history(ctx, case, every_step=True, wsgi=True):
                 raise CheckFailure(f'{what}: add({text!r}, {op["methods"]}) on an existing route was rejected: {type(exc).__name__}: {str(exc)[:200]}')
             if ok:
                 accepted_adds += 1
+                handles.append((handle, key))           # the Route object add() returned (it may be stale by the time it is used for a removal)
                 if ent is None:
                     ent = model.routes[key] = {'ast': ast, 'sig': sg, 'methods': {}, 'order': model.tick()}
                     if key in model.removed_once:
@@ -290,6 +294,21 @@ def run_history(ctx, case, every_step=True, wsgi=True):
             key = bare(ast)
             if key in model.routes:
                 _drop_route(model, key)
+        elif kind == 'remove_obj':
+            # removal through a Route object kept from an earlier add(): it addresses the pattern, whatever is registered there now
+            if not handles or handles[op['handle'] % len(handles)][0] is None:
+                continue
+            hobj, hkey = handles[op['handle'] % len(handles)]
+            try:
+                router.remove(hobj)
+                okr = True
+            except Exception as e:
+                okr = False
+                if hkey in model.routes:
+                    raise CheckFailure(f'{what}: remove(<Route {hobj.rule!r}>) raised {type(e).__name__}: {str(e)[:200]} although its pattern is registered')
+            if okr and hkey in model.routes:
+                _drop_route(model, hkey)
+                model.flags.add('removal_by_route_object')
         elif kind == 'remove_name':
             n = op['name']
             try:
@@ -500,6 +519,7 @@ def bounded(ctx):
         {'op': 'remove', 'rule': 0, 'choice': []},
         {'op': 'remove', 'rule': 2, 'choice': []},
         {'op': 'remove_name', 'name': 'n1'},
+        {'op': 'remove_obj', 'handle': 0},                # through the Route object the first accepted add() returned (stale if that rule was removed since)
         {'op': 'remove_prefix', 'hook': 1, 'choice': []},
         {'op': 'add_hook', 'hook': 0, 'type': 0, 'choice': []},
         {'op': 'add_hook', 'hook': 3, 'type': 0, 'choice': []},
